@@ -330,6 +330,52 @@ class Lock:
         self.ctx.extra['lockstep_lines'] = len(self.lines)
 
 
+def update_comment_grid(ctx):
+    """An EXISTING leading / trailing comment of a posting or meta item, indented differently from its owner, is assigned a
+    new value through the value property (empty string included): it is updated where it stands - its own indentation and
+    every other line's indentation stay."""
+    for owner_kind in ('posting', 'meta-item'):
+        for side in ('leading', 'trailing'):
+            for oi in ('  ', '    ', '\t'):
+                for ci in ('  ', '      ', '\t', ' '):
+                    if ci == oi:
+                        continue
+                    for new in ('', 'x', 'a\nb'):
+                        c_line = f'{ci}; old'
+                        o_line = f'{oi}Assets:Foo  1 USD' if owner_kind == 'posting' else f'{oi}kk: 1'
+                        body = [c_line, o_line] if side == 'leading' else [o_line, c_line]
+                        text = '2000-01-01 *\n' + '\n'.join(body) + '\n' + (f'{oi}Assets:Bar\n' if owner_kind == 'posting' else f'  Assets:Bar\n')
+                        case = {'route': 'comment-update', 'owner': owner_kind, 'side': side, 'oi': oi, 'ci': ci, 'new': new, 'text': text}
+                        try:
+                            f = edits.P().parse(text, models.File)
+                        except Exception:
+                            ctx.count('comment-update:layout-rejected')
+                            continue
+                        txn = f.raw_directives[0]
+                        target = txn.raw_postings[0] if owner_kind == 'posting' else (txn.raw_meta[0] if len(txn.raw_meta) else None)
+                        if target is None or getattr(target, side + '_comment') is None:
+                            ctx.count('comment-update:not-attributed-that-way')
+                            continue
+                        before_ind = indent_tokens(f.token_store)
+                        bc0 = getattr(target, 'raw_' + side + '_comment')
+                        ctx.case(('comment-update', owner_kind, side, oi, ci, new))
+                        try:
+                            setattr(target, side + '_comment', new)
+                        except Exception as e:
+                            ctx.oracle_fail('C18:raises:comment-update', f'{type(e).__name__}: {str(e)[:160]}', case)
+                            continue
+                        bc = getattr(target, 'raw_' + side + '_comment')
+                        after_ind = {i: (k, s) for i, k, s in indent_tokens(f.token_store)}
+                        moved = next(((k, s, after_ind.get(i, (k, None))[1]) for i, k, s in before_ind if after_ind.get(i, (k, None))[1] != s), None)
+                        if bc is None or bc.indent != ci:
+                            ctx.oracle_fail(f'C18:existing-indent-changed:comment-update:{owner_kind}', f'{owner_kind}.{side}_comment = {new!r} on a comment indented {ci!r} '
+                                            f'(owner {oi!r}): the comment line is now indented {None if bc is None else bc.indent!r}', case)
+                        elif moved:
+                            ctx.oracle_fail('C18:existing-indent-changed:comment-update', f'the indent of an existing {moved[0]} changed {moved[1]!r} -> {moved[2]!r}', case)
+                        elif bc.value != new:
+                            ctx.oracle_fail('C18:comment-update-readback', f'reads back {bc.value!r} after assigning {new!r}', case)
+
+
 def _run(ctx, n, with_model):
     r = ctx.rng
     lock = Lock(ctx) if with_model else None
@@ -361,6 +407,7 @@ def _run(ctx, n, with_model):
 
 
 def run(ctx):
+    update_comment_grid(ctx)
     _run(ctx, ctx.scale(2500, 30000), ctx.extra.get('model_available', True))
 
 
@@ -373,6 +420,11 @@ def replay(ctx, data):
     if case.get('route') == 'commentfmt':
         raw = models.BlockComment._format_value(case['indent'], case['comment'])
         return all(l.startswith(case['indent'] + ';') for l in raw.split('\n'))
+    if case.get('route') == 'comment-update':
+        import check
+        c = check.Ctx('C18', 'quick', ctx.seed)
+        update_comment_grid(c)
+        return not c.oracle_fails
     fails = run_case(case)
     for sig, what in fails:
         print(f'  {sig}: {what}')
